@@ -210,6 +210,96 @@ fn ask(addr: SocketAddr, method: &str, host: Option<&str>, path: &str, query: Op
     }
 }
 
+/// Several plain HTTP requests on ONE keep-alive connection (the last one asks for close). `linewise`: every head
+/// is written line by line with short pauses, an extra header line first, so that a read can end exactly at a
+/// line boundary before `Host:`. Returns one answer per request (stops at the first failure).
+fn ask_sequence(addr: SocketAddr, reqs: &[(String, Option<String>, String)], linewise: bool) -> Vec<Result<String, String>> {
+    use std::io::Write;
+    let mut out = Vec::new();
+    let mut c = match Conn::open(addr) {
+        Ok(c) => c,
+        Err(e) => return vec![Err(e.to_string())],
+    };
+    for (i, (method, host, path)) in reqs.iter().enumerate() {
+        let last = i + 1 == reqs.len();
+        let mut lines: Vec<String> = vec![format!("{} {} HTTP/1.1\r\n", method, path), "X-First: 1\r\n".to_string()];
+        if let Some(h) = host {
+            lines.push(format!("Host: {}\r\n", h));
+        }
+        lines.push(format!("Connection: {}\r\n", if last { "close" } else { "keep-alive" }));
+        lines.push("\r\n".to_string());
+        let sent = if linewise {
+            lines.iter().all(|l| {
+                let ok = c.s.write_all(l.as_bytes()).is_ok();
+                std::thread::sleep(Duration::from_millis(2));
+                ok
+            })
+        } else {
+            c.s.write_all(lines.concat().as_bytes()).is_ok()
+        };
+        // a server that answers before the whole head was written (and closes) makes later writes fail: what it
+        // answered is still the observation to judge
+        match c.read_response(if sent { Duration::from_secs(10) } else { Duration::from_secs(2) }) {
+            Ok(None) | Err(_) if !sent => {
+                out.push(Err("connection lost before the request could be sent".into()));
+                return out;
+            }
+            Ok(Some(m)) => {
+                out.push(Ok(if m.status() == 404 { "404".into() } else { String::from_utf8_lossy(&m.body).to_string() }));
+                if !matches!(m.framing, crate::httpref::Framing::ContentLength(_)) {
+                    return out; // not self-delimiting: the stream cannot be followed further (C01's subject)
+                }
+                if !m.body.is_empty() {
+                    crate::httplab::eat_body_crlf(&mut c);
+                }
+            }
+            Ok(None) => {
+                out.push(Err("no response".into()));
+                return out;
+            }
+            Err(e) => {
+                out.push(Err(format!("malformed response: {}", e)));
+                return out;
+            }
+        }
+    }
+    out
+}
+
+/// Keep-alive sequences: the choice for each request depends on ITS Host and path only, not on what the
+/// connection carried before.
+pub fn run_keepalive_cases(r: &mut Report, addr: SocketAddr, m: &AppModel, rng: &mut Rng, nseq: usize, matcher: Matcher, runtime: &str, replay: &[String]) {
+    for _ in 0..nseq {
+        let n = rng.urange(2, 4);
+        // half of the sequences keep the path fixed and vary only the Host (a per-connection memo keyed by path would show)
+        let fixed_path = if rng.chance(1, 2) { Some(gen_path(rng, m)) } else { None };
+        let reqs: Vec<(String, Option<String>, String)> = (0..n).map(|_| (rng.pick(&["GET", "POST", "PUT", "DELETE"]).to_string(), gen_host(rng, m), fixed_path.clone().unwrap_or_else(|| gen_path(rng, m)))).collect();
+        let linewise = rng.chance(1, 2);
+        let got = ask_sequence(addr, &reqs, linewise);
+        r.eval();
+        r.count("keepalive_sequences", 1);
+        for (i, (method, host, path)) in reqs.iter().enumerate() {
+            let want_name = match route_ref(m, host.as_deref(), path, false, matcher) {
+                Choice::Route(s, j) => handler_name(s, j, false),
+                Choice::NotFound => "404".into(),
+            };
+            match got.get(i) {
+                Some(Ok(g)) if *g == want_name => r.count("keepalive_answers_matching_reference", 1),
+                Some(Ok(g)) => {
+                    let ex = J::obj(vec![("app", app_json(m)), ("connection", J::Arr(reqs.iter().map(|(me, h, p)| J::s(format!("{} {} Host={:?}", me, p, h))).collect())), ("request_index", J::u(i as u64)), ("delivery", J::s(if linewise { "line by line, 2 ms apart" } else { "one write per request" })), ("expected", J::s(&want_name)), ("got", J::s(show(g.as_bytes(), 80))), ("runtime", J::s(runtime))]);
+                    r.violation("C04/keep-alive:wrong-handler", format!("[{}] request #{} of a keep-alive connection ({} {} Host {:?}, {}): answered by {:?}, the routing rule selects {:?}", runtime, i, method, path, host, if linewise { "head sent line by line" } else { "one write" }, show(g.as_bytes(), 40), want_name), ex, replay.to_vec());
+                    break;
+                }
+                Some(Err(e)) => {
+                    r.inconclusive(format!("keep-alive request failed: {}", e));
+                    break;
+                }
+                None => break,
+            }
+        }
+    }
+}
+
 pub fn run_app_cases(r: &mut Report, addr: SocketAddr, m: &AppModel, rng: &mut Rng, nreq: usize, matcher: Matcher, runtime: &str, replay: &[String]) {
     for _ in 0..nreq {
         let ws = rng.chance(1, 10);
